@@ -23,10 +23,7 @@ import (
 	"net/http"
 )
 
-var (
-	sseFlushPattern   = [2]byte{'\n', '\n'}
-	chunkFlushPattern = [2]byte{'\r', '\n'}
-)
+var chunkFlushPattern = [2]byte{'\r', '\n'}
 
 func shouldChunk(res *http.Response) bool {
 	if res.ProtoMajor != 1 || res.ProtoMinor != 1 {
